@@ -442,3 +442,6 @@ M("C10", "inverse-fit-unscaled-lstsq", [(WC, "        design = (amatrix / scale[
   "least squares without column scaling: high-order SIP monomials fall under the rank cutoff")
 M("C18", "interplin-integer-inputs-not-converted", [(SU, "    if v.dtype.kind in \"iub\":\n        v = v.astype(\"f8\")\n", "")],
   "the repair e67550b reverted for the table values: differences of unsigned values wrap around")
+M("C04", "text-write-assumes-one-byte-order", [(RU, "            native_dtype = dataview.dtype.newbyteorder(\"=\")\n            if native_dtype != dataview.dtype:\n                dataview = dataview.astype(native_dtype)\n",
+                                                "            if _needs_byteswap(dataview):\n                dataview = dataview.copy()\n                to_native_inplace(dataview)\n")],
+  "the repair 4e02795 reverted: a table mixing byte orders is written with its big-endian fields uninterpreted")
